@@ -13,7 +13,9 @@
 (* obligation is discharged by the success of its task (for clr: by an     *)
 (* answer that no longer shows the indication; an IIN2 rejection of a      *)
 (* non-read automatic task also discharges it - the function is not        *)
-(* supported).                                                             *)
+(* supported).  Where automatic time synchronisation is configured, a      *)
+(* processed response that shows NEED_TIME adds the obligation "time"      *)
+(* between integ and en.                                                   *)
 (*   order                 an automatic task started while an obligation   *)
 (*                         ahead of it is open                             *)
 (*   poll-before-startup   a periodic poll / event scan started while any  *)
@@ -31,12 +33,13 @@ EXTENDS MMonBase
 
 AutoOf(name) == CASE name = "ClearRestartBit" -> "clr" [] name = "DisableUnsolicited" -> "dis"
                   [] name = "StartupIntegrity" -> "integ" [] name = "EnableUnsolicited" -> "en"
-                  [] name = "AutoEventScan" -> "evscan" [] name = "PeriodicPoll" -> "poll" [] OTHER -> ""
+                  [] name = "AutoEventScan" -> "evscan" [] name = "PeriodicPoll" -> "poll"
+                  [] name = "TimeSync" -> "time" [] OTHER -> ""
 Rank(n) == CASE n = "clr" -> 1 [] n = "dis" -> 2 [] n = "integ" -> 3 [] n = "time" -> 4 [] n = "en" -> 5 [] OTHER -> 9
 
 AInit(c) == [a |-> c.addr, need |-> {}, integDone |-> FALSE, amb |-> FALSE,
-             fk |-> [n \in {"clr", "dis", "integ", "en", "evscan"} |-> 0],      \* consecutive failures
-             ft |-> [n \in {"clr", "dis", "integ", "en", "evscan"} |-> 0]]      \* time of the last one
+             fk |-> [n \in {"clr", "dis", "integ", "time", "en", "evscan"} |-> 0],      \* consecutive failures
+             ft |-> [n \in {"clr", "dis", "integ", "time", "en", "evscan"} |-> 0]]      \* time of the last one
 MonInit == [cfg |-> [assocs |-> <<>>], sc |-> "", viol |-> <<>>, out |-> NoOut, A |-> <<>>,
             up |-> FALSE, en |-> TRUE, pipe |-> FALSE]
 V(m, reason, l, ctx) == [m EXCEPT !.viol = Append(@, Viol("C17", reason, l, m.sc, ctx))]
@@ -59,7 +62,9 @@ CbStep(m, e, c, l) ==
     IF c.k # "ai" \/ c.n \notin {"task_start", "task_success", "task_fail"} THEN m
     ELSE
     LET i == Ix(m, c.i[1])
-        n == AutoOf(c.s)
+        n0 == AutoOf(c.s)
+        \* a time synchronisation is an automatic task only where one is configured (otherwise it is a user request)
+        n == IF n0 = "time" /\ (i = 0 \/ m.cfg.assocs[IF i = 0 THEN 1 ELSE i].tsync = "") THEN "" ELSE n0
     IN IF i = 0 \/ n = "" THEN m
     ELSE
     LET A == m.A[i]
@@ -107,7 +112,10 @@ MonStep(m, e, l) ==
         unsol == isRx /\ e.rx.fc = 130 /\ e.rx.uns /\ e.rx.body # "hdrbad" /\ i # 0
         answer == isRx /\ e.rx.fc = 129 /\ i # 0 /\ Answers(mS.out, [e.rx EXCEPT !.body = IF @ = "bad" THEN "data" ELSE @])
         mA == IF answer /\ e.rx.body = "bad" /\ e.rx.iin.rst THEN [mS EXCEPT !.A[i].amb = TRUE] ELSE mS
-        mR == IF (unsol \/ (answer /\ e.rx.body # "bad")) /\ e.rx.iin.rst THEN SawRestart(mA, i) ELSE mA
+        mR0 == IF (unsol \/ (answer /\ e.rx.body # "bad")) /\ e.rx.iin.rst THEN SawRestart(mA, i) ELSE mA
+        \* the outstation asks for the time: synchronise before enabling unsolicited reporting and before polling
+        mR == IF (unsol \/ (answer /\ e.rx.body # "bad")) /\ e.rx.iin.time /\ mR0.cfg.assocs[i].tsync # ""
+                THEN [mR0 EXCEPT !.A[i].need = @ \cup {"time"}] ELSE mR0
         \* gating of unsolicited data
         gated == unsol /\ mR.cfg.assocs[i].integ /\ ~mR.A[i].integDone /\ e.rx.body # "empty" /\ ~mR.A[i].amb
         uc == IF isRx THEN Confirms(e, TRUE, e.rx.seq, e.rx.src) ELSE <<>>
